@@ -13,6 +13,7 @@ package main
 
 import (
 	"bytes"
+	"encoding/binary"
 	"fmt"
 	"math"
 	"os"
@@ -473,6 +474,116 @@ func kinds(evs []event) []string {
 		ks[i] = e.kind
 	}
 	return ks
+}
+
+// opLoad: r.HLL = UmMarshall(image) for a crafted, well-formed image: skipDegree k and distinct values divisible by 2^k
+func (x *mach) opLoad(r int, k int, items []uint32) {
+	x.h.Op("m load %d %d %s", r, k, verifx.List(items))
+	x.guard(func() {
+		blob := []byte{byte(k)}
+		blob = binary.AppendUvarint(blob, uint64(len(items)))
+		for _, it := range items {
+			blob = binary.LittleEndian.AppendUint32(blob, it)
+		}
+		var c dm.ChUnique
+		if err := c.UmMarshall(bytes.NewBuffer(blob)); err != nil {
+			x.h.Obs("err")
+			return
+		}
+		x.m[r] = dm.MultiValue{HLL: c}
+		x.h.Obs("%s", showU(&x.m[r].HLL))
+		x.h.Obs("%s", x.showB(&x.m[r].HLL))
+	})
+}
+
+// caseWrap: small tables (16 slots) whose collision chains wrap around the end of the table, then a thinning step (a
+// contribution with a higher skipDegree arrives through Merge / MergeRead) that drops some of the chain, then a contribution
+// that carries surviving hashes again — merged in several groupings. Oracle: the same estimate for every grouping, and
+// (showB) every stored value stays reachable.
+func (x *mach) caseWrap(r *verifx.Rng) {
+	h := x.h
+	bits := uint(dm.VerifC04BitsForSkip)
+	mk := func(home int, minDeg int) uint32 {
+		t := minDeg + r.Intn(3)
+		low := uint32(2*r.Intn(500)+1) << uint(t)
+		return uint32(home)<<bits | low
+	}
+	seen := map[uint32]bool{}
+	fresh := func(home, minDeg int) uint32 {
+		for {
+			v := mk(home, minDeg)
+			if !seen[v] {
+				seen[v] = true
+				return v
+			}
+		}
+	}
+	endHome := func() int {
+		if r.Chance(3, 4) {
+			return 15 - r.Intn(2)
+		}
+		return r.Intn(16)
+	}
+	var a, b, c []uint32
+	wrapped := 0
+	for i, n := 0, r.Range(2, 6); i < n; i++ {
+		hm := endHome()
+		if hm == 15 {
+			wrapped++
+		}
+		a = append(a, fresh(hm, 0))
+	}
+	kB := r.Range(1, 2)
+	for i, n := 0, r.Range(1, 3); i < n; i++ {
+		b = append(b, fresh(r.Intn(16), kB))
+	}
+	for i, n := 0, r.Range(1, 3); i < n; i++ {
+		if r.Chance(2, 3) {
+			v := a[r.Intn(len(a))]
+			dup := false
+			for _, w := range c {
+				dup = dup || w == v
+			}
+			if !dup {
+				c = append(c, v)
+				continue
+			}
+		}
+		c = append(c, fresh(endHome(), 0))
+	}
+	x.opLoad(0, 0, a)
+	x.opLoad(1, kB, b)
+	x.opLoad(2, 0, c)
+	type res struct {
+		prog string
+		est  uint64
+		n    int32
+	}
+	run := func(kind string, t *tree) res {
+		x.evalM(t, 8, kind)
+		d := dm.VerifC04Dump(&x.m[8].HLL, false)
+		return res{kind + t.String(), x.m[8].HLL.Size(false), d.ItemsCount}
+	}
+	l := func(i int) *tree { return &tree{leaf: i} }
+	n2 := func(p, q *tree) *tree { return &tree{leaf: -1, l: p, r: q} }
+	progs := []res{
+		run("umerge", n2(n2(l(0), l(1)), l(2))),
+		run("umerge", n2(n2(l(2), l(1)), l(0))),
+		run("umerge", n2(l(0), n2(l(1), l(2)))),
+		run("mread", n2(n2(l(0), l(1)), l(2))),
+		run("mread", n2(n2(l(2), l(1)), l(0))),
+	}
+	for _, p := range progs[1:] {
+		if p.est != progs[0].est {
+			h.Viol("unique-merge-order", "wrapped chain + thinning: estimate %d (items=%d) for %s but %d (items=%d) for %s", p.est, p.n, p.prog, progs[0].est, progs[0].n, progs[0].prog)
+			break
+		}
+	}
+	h.Stat("wrap.cases", 1)
+	if wrapped >= 2 {
+		h.NonTrivial("chain-wraps-past-last-slot")
+		h.Stat("wrap.chain_through_last_slot", 1)
+	}
 }
 
 func (x *mach) opIns(r int, val uint64) {
@@ -1216,6 +1327,8 @@ func main() {
 			x.caseSketch(r)
 		case "ts":
 			x.caseTs(r)
+		case "wrap":
+			x.caseWrap(r)
 		default:
 			h.Obs("bad-mode")
 		}
